@@ -190,6 +190,7 @@ func (b *bitstream) Next() error {
 
 	// Structs with a length code of 1 are a special case. Their length is always encoded
 	// as a VarUInt and their field names appear in ascending symbol ID order.
+	lengthIsExplicit := false
 	if code == bitcodeStruct && length == 1 {
 		length, _, err = b.readVarUintLen(b.remaining())
 		if err != nil {
@@ -199,6 +200,8 @@ func (b *bitstream) Next() error {
 			// Ordered structs must have at least one symbol/value pair.
 			return &SyntaxError{"ordered structs cannot be empty", b.pos - 1}
 		}
+		// From here on length is a byte count, no longer a length code: 14 and 15 are plain lengths.
+		lengthIsExplicit = true
 	}
 
 	if code == bitcodeNone {
@@ -238,7 +241,7 @@ func (b *bitstream) Next() error {
 		}
 	}
 
-	if length == 0x0F {
+	if length == 0x0F && !lengthIsExplicit {
 		// This value is actually a null.
 		b.code = code
 		b.null = true
@@ -249,7 +252,7 @@ func (b *bitstream) Next() error {
 	rem := b.remaining()
 
 	// This value's actual length is encoded as a separate varUint.
-	if length == 0x0E {
+	if length == 0x0E && !lengthIsExplicit {
 		var lenghtOfRemaining uint64
 		length, lenghtOfRemaining, err = b.readVarUintLen(rem)
 		if err != nil {
